@@ -5,6 +5,7 @@ LEVEL = 'other'
 ASSUMPTIONS = [
     'PLY\'s scanner and LR driver are the trusted environment (they must run outside the tracer): a token rule is called with the matched text and its offset, '
     'a production with the symbols it covers; the driver loop itself terminates (one token consumed per shift)',
+    'scanner_backtracking: strings of 1..6 characters per repetition; \\d / \\w / \\s modelled as their ASCII sets; look-ahead assertions dropped (over-approximation of the token text); a candidate counts only if the real parser does not scan the pumped text within 15 s',
     'unit level: text, offsets and line numbers symbolic (text <= 5/6 characters); no token handed to the parser ends in a line break',
 ]
 
